@@ -248,10 +248,64 @@ func FuzzBST(f *testing.F) {
 	})
 }
 
+// runIdentity: values with identity (pointers). Every Upsert stores a fresh pointer whose pointee
+// is drawn from {0,1}, so most overwrites replace a value by a distinct one with equal contents;
+// Get and Traverse must hand back the very pointer upserted last (an ordered MAP returns the value
+// stored last - a store skipped because the contents "did not change" keeps the older one, which
+// the caller can tell apart as soon as it mutates or compares the pointee's address).
+func runIdentity(w *core.Worker, c Case) {
+	t := bstree.New[int, *int](func(a, b int) bool { return a < b })
+	model := map[int]*int{}
+	overwrites := 0
+	for i, op := range c.Ops {
+		var p any
+		switch op.K {
+		case "U":
+			v := new(int)
+			*v = (op.Key + i/7) % 2
+			p = core.Catch(func() { t.Upsert(op.Key, v) })
+			if _, ok := model[op.Key]; ok {
+				overwrites++
+			}
+			model[op.Key] = v
+		case "D":
+			p = core.Catch(func() { t.Delete(op.Key) })
+			delete(model, op.Key)
+		case "G":
+		}
+		if p != nil {
+			w.Violation("bst.panic:"+op.K, fmt.Sprintf("pointer values, step %d %+v panicked: %v", i, op, p))
+			return
+		}
+		for k := 0; k < c.Keys; k++ {
+			it, err := t.Get(k)
+			mv, ok := model[k]
+			if ok != (err == nil) || (ok && it.Val != mv) {
+				w.Violation("bst.identity-get", fmt.Sprintf("pointer values, after step %d (%+v): Get(%d) = (%p, %v), the pointer upserted last is %p (present=%v)", i, op, k, it.Val, err, mv, ok))
+				return
+			}
+		}
+		n, bad := 0, false
+		t.Traverse(func(it bstree.Item[int, *int]) {
+			n++
+			if mv, ok := model[it.Key]; !ok || mv != it.Val {
+				bad = true
+			}
+		})
+		if bad || n != len(model) {
+			w.Violation("bst.identity-traverse", fmt.Sprintf("pointer values, after step %d (%+v): Traverse visited %d items (model %d) or delivered a pointer other than the one upserted last", i, op, n, len(model)))
+			return
+		}
+	}
+	if overwrites > 0 {
+		w.NonTrivial(core.HashString("id" + core.JSON(c)))
+	}
+}
+
 func TestProp(t *testing.T) {
 	r := core.Start(t, "C04")
 	defer r.Finish()
-	r.Rule("cases = operation sequences on bstree.BsTree[int,int] (Upsert with a fresh value per step / Delete / Get) checked against a map model: every return value, and Size + Get of every probe key + the full Traverse sequence (plain, and again with a second Traverse started from inside the callback) after the last step (systematic sweep: every shorter sequence is its own case) or after every step (random sequences); a quarter of the cases use a comparator that orders keys by k/3 only (distinct keys equivalent under it: the tree is then a map from classes to values); non-trivial = the sequence overwrote a present key or deleted a present key; bst-bulk: 129-5000 keys loaded in sorted/reversed/shuffled order, then three rounds of deleting a fifth of the keys and re-inserting, with Size, the complete Traverse sequence (twice) and 64 random Gets after each phase; distinct by hash of (comparator, ops)")
+	r.Rule("cases = operation sequences on bstree.BsTree[int,int] (Upsert with a fresh value per step / Delete / Get) checked against a map model: every return value, and Size + Get of every probe key + the full Traverse sequence (plain, and again with a second Traverse started from inside the callback) after the last step (systematic sweep: every shorter sequence is its own case) or after every step (random sequences); a quarter of the cases use a comparator that orders keys by k/3 only (distinct keys equivalent under it: the tree is then a map from classes to values); non-trivial = the sequence overwrote a present key or deleted a present key; bst-identity-values: BsTree[int,*int], every Upsert a fresh pointer with pointee in {0,1}, Get of every key and Traverse must return the pointer upserted last; bst-bulk: 129-5000 keys loaded in sorted/reversed/shuffled order, then three rounds of deleting a fifth of the keys and re-inserting, with Size, the complete Traverse sequence (twice) and 64 random Gets after each phase; distinct by hash of (comparator, ops)")
 
 	L := r.Pick(6, 7)
 	var alpha []Op
@@ -310,6 +364,24 @@ func TestProp(t *testing.T) {
 			emit(Case{Desc: rng.Bool(), Coarse: i%4 == 3, Full: true, Ops: ops, Keys: keys})
 		}
 	}, run)
+
+	nId := r.Pick(4000, 200000)
+	core.Monitor(r, "bst-identity-values", 0, func(emit func(Case)) {
+		rng := r.Rand("c04-identity")
+		for i := 0; i < nId; i++ {
+			keys := []int{3, 6, 16}[rng.Intn(3)]
+			var ops []Op
+			for n := rng.Range(6, 50); n > 0; n-- {
+				k := rng.Intn(keys)
+				if rng.Intn(10) < 7 {
+					ops = append(ops, Op{"U", k})
+				} else {
+					ops = append(ops, Op{"D", k})
+				}
+			}
+			emit(Case{Full: true, Ops: ops, Keys: keys})
+		}
+	}, runIdentity)
 
 	// large trees: hundreds to thousands of keys (batching / buffering inside Traverse, deep
 	// recursion); Traverse is compared in full after the load and after every block of deletes
